@@ -237,36 +237,49 @@ var pairs = [][]reqSpec{
 	{dup("DELETE"), dup("PATCH")},
 }
 
+// dfs2 cases come in blocks of 36: 24 base variants (6 pairs x keep x failfirst), 8 with an
+// upstream middleware writing constant headers, 4 on the default memory storage (nil Storage:
+// only lock / handler boundaries). The block number shifts the response shapes.
+const dfs2Block = 36
+
 func dfs2Scenario(i int) *scenario {
-	base := 24
-	if i >= 0 && i%32 >= base {
-		// upstream variants: a middleware in front of idempotency writes constant headers
-		j := i%32 - base
-		sc := &scenario{Reqs: pairs[[]int{0, 1, 0, 3, 0, 2, 5, 4}[j]], Upstream: true, ShapeBase: (j*3 + i/32) % len(shapes)}
+	blk, j := i/dfs2Block, i%dfs2Block
+	switch {
+	case j < 24:
+		sc := &scenario{Reqs: pairs[j%6], ShapeBase: (j*3 + j/6 + blk) % len(shapes)}
+		if (j/6)%2 == 1 {
+			sc.Keep = keepList
+		}
+		sc.FailFirst = (j/12)%2 == 1
+		sc.Split = blk%2 == 1
+		return sc
+	case j < 32:
+		j -= 24
+		sc := &scenario{Reqs: pairs[[]int{0, 1, 0, 3, 0, 2, 5, 4}[j]], Upstream: true, ShapeBase: (j*3 + blk) % len(shapes)}
 		if j%2 == 1 {
 			sc.Keep = keepList
 		}
 		sc.FailFirst = j >= 4 && j < 6
 		return sc
+	default:
+		j -= 32
+		sc := &scenario{Reqs: pairs[[]int{0, 1, 5, 0}[j]], MemStore: true, ShapeBase: (j*2 + blk) % len(shapes)}
+		if j%2 == 1 {
+			sc.Keep = keepList
+		}
+		sc.FailFirst = j == 3
+		return sc
 	}
-	j := i % 32
-	sc := &scenario{Reqs: pairs[j%6], ShapeBase: (j*3 + j/6 + i/32) % len(shapes)}
-	if (j/6)%2 == 1 {
-		sc.Keep = keepList
-	}
-	sc.FailFirst = (j/12)%2 == 1
-	sc.Split = (i/32)%2 == 1
-	return sc
 }
 
 func runDFS2(e *ev.Env, w *witnesses) {
-	e.Cases("dfs2", e.N(32, 256), func(c *ev.Case) {
+	e.Cases("dfs2", e.N(dfs2Block, 8*dfs2Block), func(c *ev.Case) {
 		i := mustIndex(c.ID)
 		sc := dfs2Scenario(i)
 		// Two requests with different keys never wait for each other: their 12870 interleavings
 		// are enumerated completely only for the first variants (thorough), otherwise capped.
 		max := 0
-		if len(sc.Reqs) == 2 && sc.Reqs[0].keyed() && sc.Reqs[1].keyed() && sc.Reqs[0].Key != sc.Reqs[1].Key && (e.Quick() || i >= 32) {
+		if len(sc.Reqs) == 2 && sc.Reqs[0].keyed() && sc.Reqs[1].keyed() && sc.Reqs[0].Key != sc.Reqs[1].Key && (e.Quick() || i >= dfs2Block) {
 			max = 1000
 		}
 		var t tally
@@ -282,7 +295,7 @@ func runDFS2(e *ev.Env, w *witnesses) {
 		}
 		e.StatMax("dfs2.max_schedules_per_case", int64(n))
 	})
-	e.Note("dfs2", "every schedule of 2 concurrent requests at the boundaries start, storage.get (fast path), lock, storage.get (re-check), handler.entry, handler.exit, storage.set, unlock is enumerated per case (sched.DFS, no bound) for duplicates, duplicate+keyless, duplicate+safe-method; pairs with two DIFFERENT keys (12870 schedules, no interaction) are capped at 1000 schedules except thorough cases 0-31; exhaustive cases = dfs2.cases_exhausted")
+	e.Note("dfs2", "every schedule of 2 concurrent requests at the boundaries start, storage.get (fast path), lock, storage.get (re-check), handler.entry, handler.exit, storage.set, unlock is enumerated per case (sched.DFS, no bound) for duplicates, duplicate+keyless, duplicate+safe-method; pairs with two DIFFERENT keys (12870 schedules, no interaction) are capped at 1000 schedules except in the first block of the thorough tier; 4 cases per block run on the default memory storage (lock and handler boundaries only); exhaustive cases = dfs2.cases_exhausted")
 }
 
 var triples = [][]reqSpec{
